@@ -244,7 +244,38 @@ def exp_src(e) -> str:
         return f"({exp_src(e.left)} {e.op.value} {exp_src(e.right)})"
     if isinstance(e, A.UnOp):
         return f"({e.op.value} {exp_src(e.right)})"
-    return e.variable_name
+    if isinstance(e, A.Name):
+        return e.variable_name
+    return leaf_src(e)
+
+
+def leaf_src(e) -> str:
+    with quiet():
+        return tumfl.format(chunk_of_exp(e), MinifiedStyle).split("=", 1)[1].strip()
+
+
+def c11_leaves():
+    N = lambda n: A.Name(TOK, n)  # noqa: E731
+    return [N("a"), A.Number(TOK, False, "2"), A.Number(TOK, False, "0", "5"), A.Number(TOK, True, "f"), A.String(TOK, "s"), A.Nil(TOK), A.Boolean(TOK, True),
+            A.Vararg(TOK), A.Table(TOK, []), A.ExpFunctionCall(TOK, N("f"), []), A.Index(TOK, N("t"), N("k")), A.NamedIndex(TOK, N("t"), N("k")),
+            A.ExpMethodInvocation(TOK, N("o"), N("m"), [])]
+
+
+def c11_trees_leaves():
+    """every leaf kind, bare and under every unary operator, on either side of every binary operator and under every unary operator"""
+    for p in BIN:
+        for mk in range(len(c11_leaves())):
+            for u in [None] + UN:
+                for side in (0, 1):
+                    leaf = c11_leaves()[mk]
+                    child = leaf if u is None else A.UnOp(TOK, u, leaf)
+                    other = A.Name(TOK, "z")
+                    yield A.BinOp(TOK, p, child, other) if side == 0 else A.BinOp(TOK, p, other, child)
+    for u in UN:
+        for mk in range(len(c11_leaves())):
+            for u2 in [None] + UN:
+                leaf = c11_leaves()[mk]
+                yield A.UnOp(TOK, u, leaf if u2 is None else A.UnOp(TOK, u2, leaf))
 
 
 # =========================================================================== C11
@@ -327,6 +358,10 @@ def run_c11(ctx: fw.Ctx) -> None:
     small = list(c11_trees_small())
     eval_exp_roundtrip(st, [(t, o) for t in small for o in BRACKET_OPTS])
     st.exhaustive = True
+    st_l = ctx.stream("every leaf kind (name, numerals, string, nil, true, ..., table, call, index, field, method call), bare and under a unary operator, "
+                      "on either side of every binary operator")
+    leaves = list(c11_trees_leaves())
+    eval_exp_roundtrip(st_l, [(t, BRACKET_OPTS[(i + j) % 8]) for i, t in enumerate(leaves) for j in (range(2) if ctx.quick else range(8))])
     r = ctx.rng("random")
     st2 = ctx.stream("random trees up to 12 operators x option sets")
     cases = []
@@ -1673,7 +1708,17 @@ def run_c09(ctx: fw.Ctx) -> None:
         crs.append(q[: r.randrange(len(q) + 1)])
     crs += ["a = 1\rb = = 2", "a = 1\r!", "x = 'a\rb'", "--[[\r]]\r\r!", "x = [[\r\n]] )", "\r", "\r\r(", "x\r=\r1\r)"]
     eval_total(st6, crs)
-    t2_parse(ctx, prefixes_of(seeds[: ctx.n(8, 60)]) + malformed_inputs(ctx, "c09t2", 4, 40, 200) + char_soup(r, ctx.n(800, 10000)) + crs)
+    st7 = ctx.stream("nesting up to the quantifier's bound (20) in every recursive construct, and long flat chains, closed and truncated")
+    deep = []
+    for n in (10, 20):
+        deep += ["x=" + "{" * n, "x=" + "{" * n + "}" * n, "x=" + "(" * n + "1" + ")" * n, "x=" + "(" * n, "x=" + "a{" * n, "do " * n + "end " * n, "x=" + "function() return " * n,
+                 "x=" + "f(" * n, "x=" + "a[" * n, "if a then " * n, "x=" + "{{" * (n // 2) + "}," * (n // 2), "while a do " * n, "x=" + "-(" * n]
+    for n in (100, 400):
+        deep += ["x=" + "-" * n + "1", "x=" + "not " * n, "x=" + "1+" * n + "1", "x=" + "1^" * (n // 4) + "1", "x=" + "1 .. " * (n // 4) + "1", "x=" + "a." * n + "b", ";" * n,
+                 "x=a" + "()" * n, "x=a" + "[1]" * n, "x={" + "1," * n + "}", "f(" + "1," * n + "1)", "local " + "a," * n + "a", "x=1 " * n]
+    eval_total(st7, deep)
+    st7.exhaustive = True
+    t2_parse(ctx, prefixes_of(seeds[: ctx.n(8, 60)]) + malformed_inputs(ctx, "c09t2", 4, 40, 200) + char_soup(r, ctx.n(800, 10000)) + crs + deep)
 
 
 # small token alphabets around each grammar rule with an ordering, once-only or separator constraint: every token string up to a length
@@ -3072,11 +3117,12 @@ ALL_T1 = ["Brackets", "FmtTables", "LexTables", "Ladder"]
 LEAN_OBLIGATIONS: dict[str, dict] = {
     "C06": dict(
         modules=["Tumfl.Props.C06"],
-        obligations=["Tumfl.Props.C06_quoted", "Tumfl.Props.C06_long", "Tumfl.Props.C06_forms", "Tumfl.Inst.escTable_ok"],
+        obligations=["Tumfl.Props.C06_quoted", "Tumfl.Props.C06_long", "Tumfl.Props.C06_forms", "Tumfl.Props.C06_wrapped", "Tumfl.Inst.escTable_ok"],
         extractors=["FmtTables", "Brackets"],
         tie_names=["T1:FmtTables (ESCAPE_CHARACTERS re-extracted; EscTableOK re-decided)", "T2:format (visit_String and every layout pass, stage by stage)",
                    "T2:units (_find_level, __escape_positions, __get_newline_pos, _string_ident, visit_String: every input up to a length over small alphabets)"],
-        partial_hypotheses=["the `\\z` line wrapping of _string_ident is modelled and T2-tied but has no theorem: wrapped literals are covered by the oracle streams only"],
+        partial_hypotheses=["both written forms and the `\\z` wrapping are proved to read back to the value with the reference readers; that the surrounding text does not "
+                            "interfere is C02_boundary (a literal is read whatever follows it); composition into one statement about the final text: pending"],
     ),
 }
 LEAN_OBLIGATIONS.update({
@@ -3130,13 +3176,15 @@ LEAN_OBLIGATIONS.update({
     "C09": dict(
         modules=["Tumfl.Props.C09", "Tumfl.Props.C19", "Tumfl.Props.C05"],
         obligations=["Tumfl.Props.C09_lexer_total", "Tumfl.Props.C09_lexer_terminates", "Tumfl.Props.C09_lexer_progress", "Tumfl.Props.C09_parser_errors",
-                     "Tumfl.Props.C09_no_assertion", "Tumfl.Props.C09_parse_total",
+                     "Tumfl.Props.C09_no_assertion", "Tumfl.Props.C09_parse_total", "Tumfl.Props.C09_parser_terminates", "Tumfl.Props.C09_fuel_irrelevant",
+                     "Tumfl.Props.C09_parse_total_final",
                      "Tumfl.Props.C09_no_index_error", "Tumfl.Props.C05_rejects_cleanly", "Tumfl.Props.C05_terminates"],
         extractors=["Ladder", "LexTables"],
         tie_names=["T1:Ladder", "T1:LexTables", "T2:parse (error kind, token, hints on every malformed input)"],
-        partial_hypotheses=["proved for any text: the lexer is total and terminates; parse returns a tree or raises LexerError/ParserError - never IndexError, never "
-                            "AssertionError; NOT proved: that the model parser's fuel (4*len+64) suffices, i.e. termination of the parser (T2:parse on the malformed streams would "
-                            "show `fuel` as a difference); error positions inside the text: oracle only"],
+        partial_hypotheses=["proved for any text: lexer and parser terminate (the model's recursion fuel is never exhausted: potential argument over all 21 parse functions) "
+                            "and parse returns a tree or raises LexerError/ParserError - never IndexError, never AssertionError; error positions inside the text: C16_positions for "
+                            "tokens, oracle for LexerError positions; Python's recursion limit (nesting beyond the quantifier's bound) is outside the model"],
+
     ),
     "C13": dict(
         modules=["Tumfl.Props.C13", "Tumfl.Props.C08"],
@@ -3199,13 +3247,14 @@ LEAN_OBLIGATIONS.update({
 LAYOUT_OBL = ["Tumfl.Props.C08_remove_separators", "Tumfl.Props.C08_add_spacing", "Tumfl.Props.C08_remove_orphaned", "Tumfl.Props.C08_resolve_tokens",
               "Tumfl.Props.C08_join", "Tumfl.Props.C08_indent_brackets", "Tumfl.Props.C08_string_wrap", "Tumfl.Props.C08_wrap_progress", "Tumfl.Props.C02_boundary",
               "Tumfl.Props.C08_comment_wf", "Tumfl.Props.C08_comment_text"]
-PIECE_OBL = ["Tumfl.Props.C11_roundtrip", "Tumfl.Props.C11_emit_is_par", "Tumfl.Props.C11_emit_roundtrip", "Tumfl.Props.C11_minified", "Tumfl.Inst.brackets_sound_all",
-             "Tumfl.Props.C06_quoted", "Tumfl.Props.C06_long", "Tumfl.Props.C06_forms", "Tumfl.Props.C07_partial", "Tumfl.Props.C13_emit_on"]
-FORMAT_MODULES = ["Tumfl.Props.C08", "Tumfl.Props.C11", "Tumfl.Props.C06", "Tumfl.Props.C07", "Tumfl.Props.C13"]
-FORMAT_PARTIAL = ["the composition itself is NOT proved: the theorems listed are the proved pieces it rests on (layout passes keep the pieces; adjacent pieces do not fuse "
-                  "when sep_required says so; operator brackets, string literals, numerals and comment pieces are right); that the emitted pieces of statements, calls, "
-                  "tables and function bodies are a valid yield of the tree (F2 of DESIGN section 6) and the parser simulation for statements are covered by the T2 streams "
-                  "(every stage of format compared with the real code) and by the reference-parser oracle on the generated, enumerated and corpus programs",
+PIECE_OBL = ["Tumfl.Props.Print_sim", "Tumfl.Props.Print_sim_parseToks", "Tumfl.Props.Print_readings", "Tumfl.Props.C11_roundtrip", "Tumfl.Props.C11_emit_is_par", "Tumfl.Props.C11_emit_roundtrip", "Tumfl.Props.C11_minified", "Tumfl.Inst.brackets_sound_all",
+             "Tumfl.Props.C06_quoted", "Tumfl.Props.C06_long", "Tumfl.Props.C06_forms", "Tumfl.Props.C06_wrapped", "Tumfl.Props.C07_partial", "Tumfl.Props.C13_emit_on"]
+FORMAT_MODULES = ["Tumfl.Props.Print", "Tumfl.Props.C08", "Tumfl.Props.C11", "Tumfl.Props.C06", "Tumfl.Props.C07", "Tumfl.Props.C13"]
+FORMAT_PARTIAL = ["proved: every token reading of the emitted pieces (each statement/block separator independently a `;` or nothing) is accepted by the reference parser with the "
+                  "same tree modulo parentheses and empty statements, for every style and printable tree (Print_sim); the source is parsed to a tree related to the reference "
+                  "tree (parser simulation, C03/C10); each layout pass keeps the pieces, literals and their `\\z` wrapping read back, comments are well-formed, adjacent pieces "
+                  "do not fuse when sep_required says so, a well-formed layout text lexes to its tokens (unlex).  NOT yet composed: that the final text of format IS such a "
+                  "well-formed layout of the emitted pieces (stage by stage tied to the real code by T2:format and T2:units, and checked by the reference-parser oracle)",
                   "K1, K2, K3 are known findings"]
 for _p, _extra in (("C01", []), ("C02", []), ("C08", []), ("C15", [])):
     LEAN_OBLIGATIONS[_p] = dict(
